@@ -29,6 +29,11 @@ fn strategy(tier: Tier) -> BoxedStrategy<LedgerCase> {
             }
         }
         // another quarter repeats a recognised column (two memo / two commission columns with different cells)
+        // some inputs with an opening position get a second one for the same symbol in another letter case (a different position)
+        if mode % 3 == 2 { if let Some((sym, _, _)) = c.opening.first().cloned() {
+            let other: String = sym.chars().map(|ch| if ch.is_ascii_uppercase() { ch.to_ascii_lowercase() } else { ch.to_ascii_uppercase() }).collect();
+            if other != sym && !c.opening.iter().any(|o| o.0 == other) { c.opening.push((other, "7".into(), "77.7".into())); }
+        } }
         if mode % 4 == 1 { c.tags = vec![if mode % 8 == 1 { "dup:memo".to_string() } else { "dup:commission".to_string() }]; } else { c.tags = vec![]; }
         c
     }).boxed()
